@@ -13,16 +13,16 @@ package filepathext
 // ---- C08: a task dir that mentions one of the special directories ANYWHERE (in any template spelling) is left
 // alone when the dir of an include is joined in front of it
 //@ func isSpecialDir
-//@   site strings.Contains#1 requires arg0 == dir && arg1 == knownAbsDirs[$i]                                  [C08]
+//@   site strings.Contains#0 requires arg0 == dir && arg1 == knownAbsDirs[$i]                                  [C08]
 //@   nosite strings.HasPrefix                                                                                  [C08]
 
 // ---- C19: ".yml" / "dir/.yml": a path whose LAST ELEMENT consists of an extension only
 //@ ghost var baseOf string scratch
 //@ ghost var extOf string scratch
 //@ func IsExtOnly
-//@   site filepath.Base#1 requires arg0 == path                                                                [C19]
+//@   site filepath.Base#0 requires arg0 == path                                                                [C19]
 //@   site filepath.Base#1 ghost baseOf := result
-//@   site filepath.Ext#1 requires arg0 == path                                                                 [C19]
+//@   site filepath.Ext#0 requires arg0 == path                                                                 [C19]
 //@   site filepath.Ext#1 ghost extOf := result
 // ... and an extension has at least one character after the dot: "." and "dir/." name a DIRECTORY (--init . writes
 // ./Taskfile.yml), they are not a file name made of an extension only
